@@ -33,6 +33,11 @@ class Dims:
         self.passthrough = set(passthrough_calls)  # callee q whose result has the unit of its (unified) arguments
         self.getters = getters or {}               # callee q -> dim of the result
         self.indirect_fields = indirect_fields or {}   # field q of a callback -> index of the argument whose unit the result has
+        self.param_names = {}                      # parameter name -> unit (a convention of the code base, e.g. now / delta)
+        self.param_units = {}                      # (function q, parameter name) -> unit, where the convention does not hold
+        self.skip_vars = set()                     # (function q, variable name) reused for two quantities
+        self.arg_units = {}                        # callee q -> {argument index: unit}
+        self.ret_units = {}                        # function q -> unit of what it returns
         self.env = {}                              # (fn key, var name, var id) -> dim
         self.votes = {}
         self.scope = {}                            # callee q -> fn (helpers whose parameters are inferred from call sites)
@@ -43,10 +48,29 @@ class Dims:
     def unit(self, **kw):
         return tuple(kw.get(b, 0) for b in self.base)
 
+    def affine_ix(self):
+        """indices of the *affine* bases (names starting with '@', e.g. '@date'): a quantity with exponent 1 there is a point (a date), with exponent 0 a
+        difference (a duration).  Points and differences follow torsor arithmetic: point + difference = point, point - point = difference; two points
+        cannot be added, and stores, comparisons, min/max need both or neither to be points.  Products and quotients of points have no unit."""
+        return [i for i, b in enumerate(self.base) if b.startswith('@')]
+
+    def add_dims(self, da, db, op):
+        """unit of a (+|-) b for known units, or None when the combination is not allowed"""
+        ax = self.affine_ix()
+        for i, (x, y) in enumerate(zip(da, db)):
+            if i not in ax and x != y:
+                return None
+        out = list(da)
+        for i in ax:
+            out[i] = da[i] + db[i] if op == '+' else da[i] - db[i]
+            if out[i] not in (0, 1):
+                return None
+        return tuple(out)
+
     def show(self, d):
         if d in (POLY, BOOL, None):
             return str(d)
-        num = [b if e == 1 else '%s^%d' % (b, e) for b, e in zip(self.base, d) if e > 0]
+        num = [(b.lstrip('@') if e == 1 else '%s^%d' % (b.lstrip('@'), e)) for b, e in zip(self.base, d) if e > 0]
         den = [b if e == -1 else '%s^%d' % (b, -e) for b, e in zip(self.base, d) if e < 0]
         s = '·'.join(num) or '1'
         return s + ('/' + '/'.join(den) if den else '')
@@ -72,7 +96,15 @@ class Dims:
             return self.dim(fn, t[2], sites, line)
         if k == 'var':
             if t[1] == 'global':
+                if isinstance(self.globals_one, dict):
+                    return self.globals_one.get(t[2])
                 return self.one if t[2] in self.globals_one else None
+            if (fn['q'], t[2]) in self.skip_vars:
+                return None               # a variable reused for quantities of different units: its sites are not decided
+            if t[1] == 'parm' and (fn['q'], t[2]) in self.param_units:
+                return self.param_units[(fn['q'], t[2])]
+            if t[1] == 'parm' and t[2] in self.param_names:
+                return self.param_names[t[2]]
             return self.env.get(self.var_key(fn, t))
         if k == 'field':
             d = self.field_dim(fn, t[2])
@@ -109,6 +141,8 @@ class Dims:
                 self.unify(fn, a, b, sites, line, op)
                 return BOOL
             if op in ('+', '-'):
+                if self.affine_ix():
+                    return self.addsub(fn, op, a, b, sites, line)
                 return self.unify(fn, a, b, sites, line, op)
             if op in ('*', '/'):
                 da, db = self.dim(fn, a, sites, line), self.dim(fn, b, sites, line)
@@ -118,6 +152,8 @@ class Dims:
                     db = self.one
                 if da in (None, BOOL) or db in (None, BOOL):
                     return None
+                if any(da[i] or db[i] for i in self.affine_ix()):
+                    return None          # a point has no product
                 return mul(da, db) if op == '*' else div(da, db)
             if op in ex.ASSIGN_OPS:
                 return self.assign(fn, op, a, b, sites, line)
@@ -125,6 +161,22 @@ class Dims:
         if k == 'call':
             return self.call(fn, t, sites, line)
         return None
+
+    def addsub(self, fn, op, a, b, sites, line):
+        da, db = self.dim(fn, a, sites, line), self.dim(fn, b, sites, line)
+        if da == POLY and db == POLY:
+            return POLY
+        if da == POLY or db == POLY:
+            # a literal added to a quantity is a difference in the unit of that quantity
+            d = db if da == POLY else da
+            return d if d not in (None, BOOL) else None
+        if da in (None, BOOL) or db in (None, BOOL):
+            return None
+        r = self.add_dims(da, db, op)
+        if sites is not None:
+            rec = {'line': line, 'what': op, 'a': ex.pretty(a), 'b': ex.pretty(b), 'da': da, 'db': db, 'fn': fn['q']}
+            sites.append(('ok' if r is not None else 'conflict', rec))
+        return r
 
     def call(self, fn, t, sites, line):
         q, obj, args = t[1], t[2], t[3]
@@ -140,7 +192,21 @@ class Dims:
                 if n not in (i, j):
                     self.dim(fn, a, sites, line)
             return None
+        if q in self.arg_units:
+            for i, u in self.arg_units[q].items():
+                if len(args) > i:
+                    da = self.dim(fn, args[i], sites, line)
+                    if da is None:
+                        self.solve_for(fn, args[i], u, line)
+                    elif da not in (POLY, BOOL) and sites is not None:
+                        sites.append(('ok' if da == u else 'conflict', {'line': line, 'what': 'argument %d of %s' % (i, q.rsplit('::', 1)[-1]), 'a': ex.pretty(args[i]), 'b': '[%s]' % self.show(u), 'da': da, 'db': u, 'fn': fn['q']}))
+            for i, a in enumerate(args):
+                if i not in self.arg_units[q]:
+                    self.dim(fn, a, sites, line)
+            return self.getters.get(q)
         if q in self.getters:
+            for a in args:
+                self.dim(fn, a, sites, line)
             return self.getters[q]
         if q == '<indirect>' and obj is not None and obj[0] == 'field' and obj[2] in self.indirect_fields:
             i = self.indirect_fields[obj[2]]
@@ -151,6 +217,9 @@ class Dims:
         callee = self.scope.get(q)
         if callee is not None:
             for p, a in zip(callee['params'], args):
+                if not p['n']:
+                    self.dim(fn, a, sites, line)
+                    continue             # unnamed parameter: nothing to unify with
                 pv = ('var', 'parm', p['n'], p.get('at', 0))
                 self.unify_dims(fn, self.dim(fn, a, sites, line), a, callee, pv, sites, line, 'argument %s of %s' % (p['n'], q.rsplit('::', 1)[-1]))
             return None
@@ -168,6 +237,8 @@ class Dims:
         """a site with one known side votes for the unit of the local or parameter on the other side; the votes are settled between rounds
         (settle), so that a report lands on the minority site and not on whichever site was met first"""
         v = self.bindable(t)
+        if v is not None and (fn['q'], v[2]) in self.skip_vars:
+            return True
         if v is not None and d not in (None, POLY, BOOL):
             key = self.var_key(fn, v)
             if key not in self.env:
@@ -235,6 +306,16 @@ class Dims:
         if op == '=':
             return self.unify(fn, lhs, rhs, sites, line, '=')
         if op in ('+=', '-='):
+            if self.affine_ix():
+                dl, dr = self.dim(fn, lhs, sites, line), self.dim(fn, rhs, sites, line)
+                if dl in (None, BOOL, POLY) or dr in (None, BOOL):
+                    return dl if dl not in (POLY,) else None
+                if dr == POLY:
+                    return dl
+                r = self.add_dims(dl, dr, op[0])
+                if sites is not None:
+                    sites.append(('ok' if r == dl else 'conflict', {'line': line, 'what': op, 'a': ex.pretty(lhs), 'b': ex.pretty(rhs), 'da': dl, 'db': dr, 'fn': fn['q']}))
+                return dl
             return self.unify(fn, lhs, rhs, sites, line, op)
         if op in ('*=', '/='):
             dl, dr = self.dim(fn, lhs, sites, line), self.dim(fn, rhs, sites, line)
@@ -270,7 +351,13 @@ class Dims:
                             elif e.kind == 'call' and e.eid == eid:
                                 self.call(f, e.nf, sites, e.line)
                             elif e.kind == 'return' and e.val is not None:
-                                self.dim(f, e.val, sites, e.line)
+                                dv = self.dim(f, e.val, sites, e.line)
+                                ru = self.ret_units.get(f['q'])
+                                if ru is not None:
+                                    if dv is None:
+                                        self.solve_for(f, e.val, ru, e.line)
+                                    elif dv not in (POLY, BOOL) and sites is not None:
+                                        sites.append(('ok' if dv == ru else 'conflict', {'line': e.line, 'what': 'return', 'a': ex.pretty(e.val), 'b': '[%s]' % self.show(ru), 'da': dv, 'db': ru, 'fn': f['q']}))
                             self._collect(f, sites)
                     if not logb:
                         c = v.cond_atom(b['id'])
